@@ -135,6 +135,12 @@ def run(repo, run, tier):
     run.extra["order_conditions_evaluated"] = total_conditions
     richardson(repo, run, r5, info)
     adaptivity_switch(repo, run)
+    # the order conditions above are conditions on the TABLE; they describe the computed step only if the stage loop evaluates every
+    # stage of it with the arguments of the Runge-Kutta recursion (the compute_step part of C02.2, re-judged here)
+    from .c02 import compute_step_part
+    r7 = run.rule("C01.7", "the generic stage loop evaluates every stage i of the table at (t0 + c_i h, y0 + h sum_j a_ij k_j) and stores it at slot i "
+                           "(no stage is skipped or carried over from another call): the computed step is the method the order conditions were checked for", floor=4)
+    compute_step_part(repo, run, r7, rule_id="C01.7")
 
 
 # ------------------------------------------------------------------------------------------------
